@@ -822,7 +822,10 @@ func threadNilTest(f *Function, k *BasicBlock) bool {
 		repl[p] = rv
 	}
 	for _, u := range uses {
-		old := (*u.slot).(*Phi)
+		old, isPhi := (*u.slot).(*Phi)
+		if !isPhi {
+			continue // the slot was listed twice and has been rewritten already
+		}
 		if nv := repl[old][u.side]; nv != nil {
 			*u.slot = nv
 		}
